@@ -693,6 +693,16 @@ pub fn check(prop: &str, tier: &str) -> i32 {
             "seeded search: a clean batch is evidence, not proof"
         ]
     });
+    let mut ev = ev;
+    if prop == "C07" {
+        let g = |k: &str| total.stats.get(k).copied().unwrap_or(0);
+        ev["coverage"]["crash_point_enumeration"] = serde_json::json!({
+            "histories_fully_enumerated": g("probe.sweep_histories_fully_enumerated"),
+            "crash_points": g("probe.sweep_points"),
+            "what": "for each sampled fault-free history, the invocation that appends most to the log is re-run once per (log write, number of bytes of that write that persist, 0..=len) with process death, and at the boundary values with ENOSPC; exhaustive within each history, sampled across histories",
+            "big_record_tear_points": crate::bigshape::C07BIG_POINTS.to_vec(),
+        });
+    }
     let _ = std::fs::create_dir_all(format!("{}/evidence", VERIF));
     std::fs::write(format!("{}/evidence/{}.json", VERIF, prop), serde_json::to_string_pretty(&ev).unwrap()).unwrap();
     println!(
